@@ -18,7 +18,7 @@ func init() {
 		Level: "exploration",
 		Rule: "one run = one seeded history of up to 40 store operations (SetPrefix/SetSession/SetLanguage (sticky or via context)/SetLock/seal/Put/Get, Dump on the filesystem, reopen) applied in lock-step to the memory, filesystem (text and binary-key) and Postgres-on-fake backends through two handles per medium with independent sticky context, and to a reference map; " +
 			"non-trivial = at least one read that returned a written value and at least one of: translated read (hit or fallback), refused locked write, overwrite; distinct = distinct operation sequences",
-		Runs:       map[string]int{"quick": 150000, "thorough": 3000000},
+		Runs:       map[string]int{"quick": 150000, "thorough": 8000000},
 		MaxSeconds: map[string]int{"quick": 40, "thorough": 900},
 		Run:        runC10,
 		Assumptions: []string{
